@@ -28,12 +28,13 @@ LEVEL = "exploration"
 RUNS = {"quick": 30000, "thorough": 800000}
 WALL = {"quick": 240, "thorough": 1500}
 PARTITIONS = [{"name": "default", "env": {}}]
-FAULT_KINDS = ["adaptive_axis_growth", "refused_fill_midstream", "extreme_magnitude", "reorder", "batch_split", "interleave", "axis_point", "origin_point", "signed_zero", "outside_radius",
+FAULT_KINDS = ["adaptive_axis_growth", "rebinned_between_entries", "refused_fill_midstream", "extreme_magnitude", "reorder", "batch_split", "interleave", "axis_point", "origin_point", "signed_zero", "outside_radius",
                "wrong_dimension_probe", "projection", "transformed_path"]
 RULE = ("one run = one special class (polar, radial 2-D/3-D, azimuthal, spherical, spherical-surface, cylindrical) "
         "over seeded bins, a stream of <= 24 Cartesian points drawn from axis/origin/signed-zero/quadrant pools, and "
         "3-6 replicas fed through different entry paths (facade, fill, fill_n, and the three transformed=True paths) "
-        "whose deliveries are interleaved; plus projections and wrong-dimension probes; distinct = distinct sequence "
+        "whose deliveries are interleaved; plus projections, wrong-dimension probes, entries on an adaptive radial axis "
+        "and entries on a histogram that was used, re-binned in place and used again; distinct = distinct sequence "
         "of (path, class, outcome); non-trivial = at least two different entry paths delivered points")
 COMPONENTS = {
     "real": ["TransformedHistogramMixin.find_bin/fill/fill_n/transform/_validate_source_dimension/projection",
@@ -147,6 +148,14 @@ def generate(rng, seed, part):
         # the same entry-path agreement on a histogram whose radial axis is adaptive and has to grow for the point
         for _ in range(rng.randint(1, 3)):
             ops.append({"op": "adaptive_entry", "r": 0, "i": rng.randrange(n), "stretch": rng.choice([3.0, 7.5, 12.0])})
+    if rng.random() < 0.3:
+        # entry-path agreement on a histogram that was *used* (find_bin / fill), then re-binned in place (once or
+        # twice), then used again: whatever the first use left behind must not decide where later points go
+        ops.append({"op": "rebinned_entry", "r": 0, "use": [rng.randrange(n) for _ in range(rng.randint(1, 3))],
+                    "use_how": rng.choice(["find_bin", "fill", "both"]),
+                    "merges": [{"amount": rng.choice([2, 2, 3]), "axis": rng.choice([None, None, 0, -1])}
+                               for _ in range(rng.randint(1, 2))],
+                    "after": [rng.randrange(n) for _ in range(rng.randint(1, 4))]})
     for _ in range(rng.randint(0, 2)):
         ops.append({"op": "wrong_dim", "r": rng.randrange(k), "how": rng.choice(["fill", "fill_n", "find_bin", "transform"]),
                     "delta": rng.choice([-1, 1, 2])})
@@ -474,6 +483,62 @@ def execute(plan, ctx):
                                       f"transformed coordinates {np.asarray(t).tolist()} gives bins "
                                       f"{[np.asarray(b_.bins).tolist() for b_ in ref.binnings][0]} contents "
                                       f"{np.asarray(ref.frequencies).tolist()} missed {float(ref.missed)}"[:1500])
+        elif o == "rebinned_entry":
+            hh = make_empty(cfg)
+            for i in op["use"]:
+                q = np.asarray(pts[i % len(pts)], dtype=float)
+                if op["use_how"] in ("find_bin", "both"):
+                    attempt(hh.find_bin, q)
+                if op["use_how"] in ("fill", "both"):
+                    attempt(hh.fill, q)
+            okm = True
+            for m in op["merges"]:
+                ok_m, res_m = attempt(hh.merge_bins, m["amount"], axis=m["axis"], inplace=True)
+                if not ok_m:
+                    ctx.probe("merge_refused:" + type(res_m).__name__)
+                    okm = False
+                    break
+            ctx.fault("rebinned_between_entries")
+            ctx.ev(r_id, "rebinned_entry", len(op["merges"]), "ok" if okm else "merge-refused")
+            ctx.abstract("rebinned_entry", name, op["use_how"], okm)
+            if not okm:
+                continue
+            twin = hh.copy()      # same bins and contents, never used for a look-up
+            batch = hh.copy()
+            qs = [np.asarray(pts[i % len(pts)], dtype=float) for i in op["after"]]
+            stop_ = False
+            for q in qs:
+                ok1, ix1 = attempt(hh.find_bin, q)
+                ok2, ix2 = attempt(twin.find_bin, q)
+                if not (ok1 and ok2):
+                    raised(r_id, "rebinned", "find_bin", ix1 if not ok1 else ix2)
+                    stop_ = True
+                    break
+                if not same_ix(ix1, ix2):
+                    ctx.violation("C15/same-bin-on-every-path", f"C15/rebinned-find_bin-differs/{name}",
+                                  f"{K.__name__} used, then merge_bins{[(m['amount'], m['axis']) for m in op['merges']]} "
+                                  f"in place: find_bin({q.tolist()}) = {ix1!r}, on an unused copy with the same bins "
+                                  f"{ix2!r}")
+                ok1, r1 = attempt(hh.fill, q)
+                ok2, r2 = attempt(twin.fill, q)
+                if not (ok1 and ok2):
+                    raised(r_id, "rebinned", "fill", r1 if not ok1 else r2)
+                    stop_ = True
+                    break
+            if stop_:
+                continue
+            ok3, r3_ = attempt(batch.fill_n, np.asarray(qs, dtype=float))
+            if not ok3:
+                raised(r_id, "rebinned", "fill_n", r3_)
+                continue
+            for other, label in ((twin, "fill on an unused copy"), (batch, "fill_n on an unused copy")):
+                if not arrays_equal(hh.frequencies, other.frequencies, exact=True) or \
+                        not arrays_equal(missed_tuple(hh), missed_tuple(other), exact=True):
+                    ctx.violation("C15/same-bin-on-every-path", f"C15/rebinned-entry-differs/{name}/{label.split(' ')[0]}",
+                                  f"{K.__name__} used, then merge_bins{[(m['amount'], m['axis']) for m in op['merges']]} "
+                                  f"in place, then fill of {[q.tolist() for q in qs]}: contents "
+                                  f"{first_diff(hh.frequencies, other.frequencies)} / missed {missed_tuple(hh)} vs "
+                                  f"{missed_tuple(other)} ({label})"[:1500])
         elif o == "refused_fill":
             how = op["how"]
             p0 = [0.5] * d
